@@ -16,17 +16,17 @@ REG.inline_ok |= {
 FLAGS = ('_in_declare', '_in_case', '_is_create')
 
 
-def make_splitter(ex, st, tokens=None):
+def make_splitter(ex, st, tokens=None, sfx=''):
     """a StatementSplitter object in an arbitrary state (flags/booleans, depth and level integers)"""
     from sqlparse.engine.statement_splitter import StatementSplitter
     f = {'__class__': StatementSplitter,
-         '_in_declare': SBool(z3.Bool('s_in_declare')), '_in_case': SInt(z3.Int('s_in_case')),
-         '_in_loop_header': SBool(z3.Bool('s_in_loop_header')),
-         '_is_create': SBool(z3.Bool('s_is_create')), '_begin_depth': SInt(z3.Int('s_begin_depth')),
-         'consume_ws': SBool(z3.Bool('s_consume_ws')), 'level': SInt(z3.Int('s_level'))}
-    f['tokens'] = tokens if tokens is not None else ex.new_list(st, [('seg', 'TOK0', z3.IntVal(0), z3.Int('s_ntok'))])
-    st.assume(z3.Int('s_ntok') >= 0)
-    st.assume(z3.Int('s_in_case') >= 0)
+         '_in_declare': SBool(z3.Bool('s_in_declare' + sfx)), '_in_case': SInt(z3.Int('s_in_case' + sfx)),
+         '_in_loop_header': SBool(z3.Bool('s_in_loop_header' + sfx)),
+         '_is_create': SBool(z3.Bool('s_is_create' + sfx)), '_begin_depth': SInt(z3.Int('s_begin_depth' + sfx)),
+         'consume_ws': SBool(z3.Bool('s_consume_ws' + sfx)), 'level': SInt(z3.Int('s_level' + sfx))}
+    f['tokens'] = tokens if tokens is not None else ex.new_list(st, [('seg', 'TOK0' + sfx, z3.IntVal(0), z3.Int('s_ntok' + sfx))])
+    st.assume(z3.Int('s_ntok' + sfx) >= 0)
+    st.assume(z3.Int('s_in_case' + sfx) >= 0)
     return ex.new_obj(st, 'StatementSplitter', f)
 
 
